@@ -10,6 +10,7 @@ import SnowModel.Ops.SnowingObj
 import SnowModel.Ops.Frames
 import SnowModel.Ops.FlakeStats
 import SnowModel.Ops.Flake
+import SnowModel.Ops.Gen
 
 open Lean Snow
 
@@ -22,6 +23,7 @@ def allOps : List (String × Op) :=
   ++ Snow.Ops.framesOps
   ++ Snow.Ops.flakeStatsOps
   ++ Snow.Ops.flakeOps
+  ++ Snow.Ops.genOps
 
 def handle (line : String) : String :=
   match Json.parse line with
